@@ -12,7 +12,7 @@ PROOF_MODULES = ["Abverif.Proofs.Lemmas.WsFrame", "Abverif.Proofs.Lemmas.WsExt",
                  "Abverif.Proofs.WsCloseBounded", "Abverif.Proofs.Lemmas.WsGhost", "Abverif.Proofs.WsGhostLink", "Abverif.Proofs.WsCloseReason", "Abverif.Proofs.Lemmas.WsReasonInv", "Abverif.Proofs.WsCloseReasonHist"]
 MANIFEST_ENTRY = {
     "technique": 'Lean 4 invariants by induction over arbitrary operation histories (Ext relation over every engine function) + history correspondence + CloseSpec trace oracle',
-    "text": 'Proved for every configuration and every finite history of API calls, reads, clock advances and connection loss on the model (invariants by induction, using the Ext relation proved for every one of the ~100 engine functions): the state only moves forward (state_monotone); onClose is delivered exactly once, exactly when the transport is gone, and by no other event (onClose_at_most_once, onClose_only_at_lost); after loss the state is CLOSED (lost_closed) and every later operation - late data, timers, API calls - at most raises, nothing is delivered or written (silent_after_onClose, dead_forever); at most one close frame is ever sent, then the connection is CLOSING or CLOSED, and its status code is one RFC 6455 7.4 allows on the wire and its reason at most 123 octets and valid UTF-8: encode_truncate keeps UTF-8 validity for every string and limit (encodeTruncate_valid: the cut never needs to drop more than three octets), so the reason sendClose sends is valid whenever the application text is (sendClose_reason) and the echoed reason is valid because the reason of the peer is stored only after it passed the UTF-8 check (closeReasonStep_valid); and for whole histories: in every reachable state every reason recorded with a close frame we sent is valid UTF-8 and at most 123 octets, provided the application passes text to sendClose (close_reasons_valid: invariant V over every engine function; the Python API takes a str and encodes it); the octets the real objects write are checked as well (key close-frame-reason-not-utf8), whether it comes from sendClose, a failure or the echoed peer code (one_close_frame, close_frame_on_wire, closePayload_length); while CLOSING a drop timer is armed unless its timeout is configured off (closing_has_timer; the deadline itself is C17 close_timeout_drops / server_drop_timeout_drops). No data frame follows the close frame: in every reachable state the opcodes of the frames produced so far (history variable sentOps) have no 0/1/2 behind an 8, and a sent close frame implies CLOSING or CLOSED - for sendMessage, prepared messages, the streaming frame API, pings, pongs, timers, failures and replies alike (no_data_frame_after_close, no_data_frame_after_close_connecting; OpsRel proved for every receive-path, timer and close function, DataRel for every send-API function); the history variable is compared on every run with the opcodes of the frames the real objects wrote, and it agrees with the close record closeSent of the theorems below: one entry per close frame, in every reachable state (close_ghosts_agree; clean_close_has_close_frame restates the clean-close theorem in the frame vocabulary). Reported clean only if close frames travelled in both directions: every onClose(wasClean=True) in the log of every reachable state was delivered with our close frame sent (clean_close_needs_both, closing_has_sent_close: invariant J proved for every engine function, JP; clean_report_nothing_unsent: at a clean report the send queue is empty, so nothing produced - our close frame included - was left unwritten), and the flag is set in one place only, closeStateStep, i.e. on receipt of a close frame of the peer (closeStateStep_JP; with failByDrop that frame has passed the code and reason checks - with fail-by-close an invalid peer close frame is answered with 1002/1007 and then taken as the reply, open finding U4). What is proved is our half (our close frame sent) and where the flag comes from; that the reported code and reason are those of the peer is recv_refines_judge for a fresh connection and the CloseSpec oracle for whole histories. With recv_refines_judge (C02) a legal peer close frame is taken in with the peer code and reason and the close is clean. Closed in bounded time even if the peer never responds: from every reachable CLOSING state with the governing timeouts configured on, once the clock has moved max(closeHandshakeTimeout, serverConnectionDropTimeout) ahead with no further input and the due timers have run, the connection is CLOSED (closing_bounded = closing_has_timer + deadline_bounded: an armed drop timer is due no later than now + its timeout in every reachable state, invariant DB over every engine function + C17 close_timeout_drops / server_drop_timeout_drops; the side condition Quiescent says the run of advanceTo was not cut short by its fuel: advance provides dt/8+64 steps, which suffices when the ping interval is 0 or at least one second - not proved in general, a sub-second interval can exhaust it and then the model clock does not move; every compared run would show that as a difference). The clauses "clean only if close frames travelled in both directions" and "closed within the timeouts" are in addition decided on the real objects by the CloseSpec trace oracle (which also re-checks the close-last clause on the octets written) on real Twisted/asyncio objects over generated histories, with the model compared after every event; seven defects found this way were repaired in /repo (9d200e16, 5b48a5ce, a6d81347, 25c063cd, 1d0700cf, 4456518b, 10974c7e).',
+    "text": 'Proved for every configuration and every finite history of API calls, reads, clock advances and connection loss on the model (invariants by induction, using the Ext relation proved for every one of the ~100 engine functions): the state only moves forward (state_monotone); onClose is delivered exactly once, exactly when the transport is gone, and by no other event (onClose_at_most_once, onClose_only_at_lost); after loss the state is CLOSED (lost_closed) and every later operation - late data, timers, API calls - at most raises, nothing is delivered or written (silent_after_onClose, dead_forever); at most one close frame is ever sent, then the connection is CLOSING or CLOSED, and its status code is one RFC 6455 7.4 allows on the wire and its reason at most 123 octets and valid UTF-8: encode_truncate keeps UTF-8 validity for every string and limit (encodeTruncate_valid: the cut never needs to drop more than three octets), so the reason sendClose sends is valid whenever the application text is (sendClose_reason) and the echoed reason is valid because the reason of the peer is stored only after it passed the UTF-8 check (closeReasonStep_valid); and for whole histories: in every reachable state every reason recorded with a close frame we sent is valid UTF-8 and at most 123 octets, provided the application passes text to sendClose (close_reasons_valid: invariant V over every engine function; the Python API takes a str and encodes it); the octets the real objects write are checked as well (key close-frame-reason-not-utf8), whether it comes from sendClose, a failure or the echoed peer code (one_close_frame, close_frame_on_wire, closePayload_length); while CLOSING a drop timer is armed unless its timeout is configured off (closing_has_timer; the deadline itself is C17 close_timeout_drops / server_drop_timeout_drops). No data frame follows the close frame: in every reachable state the opcodes of the frames produced so far (history variable sentOps) have no 0/1/2 behind an 8, and a sent close frame implies CLOSING or CLOSED - for sendMessage, prepared messages, the streaming frame API, pings, pongs, timers, failures and replies alike (no_data_frame_after_close, no_data_frame_after_close_connecting; OpsRel proved for every receive-path, timer and close function, DataRel for every send-API function); the history variable is compared on every run with the opcodes of the frames the real objects wrote, and it agrees with the close record closeSent of the theorems below: one entry per close frame, in every reachable state (close_ghosts_agree; clean_close_has_close_frame restates the clean-close theorem in the frame vocabulary). Reported clean only if close frames travelled in both directions: every onClose(wasClean=True) in the log of every reachable state was delivered with our close frame sent (clean_close_needs_both, closing_has_sent_close: invariant J proved for every engine function, JP; clean_report_nothing_unsent: at a clean report the send queue is empty, so nothing produced - our close frame included - was left unwritten), and the flag is set in one place only, closeStateStep, i.e. on receipt of a close frame of the peer (closeStateStep_JP; with failByDrop that frame has passed the code and reason checks - with fail-by-close an invalid peer close frame is answered with 1002/1007 and then taken as the reply, open finding U4). What is proved is our half (our close frame sent) and where the flag comes from; that the reported code and reason are those of the peer is recv_refines_judge for a fresh connection and the CloseSpec oracle for whole histories. With recv_refines_judge (C02) a legal peer close frame is taken in with the peer code and reason and the close is clean. Closed in bounded time even if the peer never responds: from every reachable CLOSING state with the governing timeouts configured on, once the clock has moved max(closeHandshakeTimeout, serverConnectionDropTimeout) ahead with no further input and the due timers have run, the connection is CLOSED (closing_bounded = closing_has_timer + deadline_bounded: an armed drop timer is due no later than now + its timeout in every reachable state, invariant DB over every engine function + C17 close_timeout_drops / server_drop_timeout_drops; the side condition Quiescent says the run of advanceTo was not cut short by its fuel: advance provides dt/8+64 steps, which suffices when the ping interval is 0 or at least one second - not proved in general, a sub-second interval can exhaust it and then the model clock does not move; every compared run would show that as a difference). The clauses "clean only if close frames travelled in both directions" and "closed within the timeouts" are in addition decided on the real objects by the CloseSpec trace oracle (which also re-checks the close-last clause on the octets written) on real Twisted/asyncio objects over generated histories, with the model compared after every event; eight defects found this way were repaired in /repo (9d200e16, 5b48a5ce, a6d81347, 25c063cd, 1d0700cf, 4456518b, 10974c7e, 940acade). The opening phase is part of the histories too: an application onConnect() that returns a pending Deferred/Future (script ops hsd / hsdc, result op res) with connection loss and the opening-handshake timeout before the result arrives; a result arriving when the connection is no longer CONNECTING changes nothing (late_connect_result_inert; the real code re-opened the CLOSED connection and fired onOpen after onClose until the repair 940acade), in time it opens the connection and cancels the timer (connect_result_in_time_opens).',
     "note": 'Trusted: Lean kernel; model tied by differential execution; framework contract: connectionLost at most once and no input after it; OS socket teardown not modelled.',
 }
 TRUSTED = [
